@@ -330,32 +330,52 @@ pub fn c15(args: &Args) {
 
 type Snapshot = BTreeMap<u8, SocketAddr>; // other ids -> address (self always present)
 
-fn c16_addr(id: u8, variant: u8) -> SocketAddr {
-    SocketAddr::from(([10, 2, id, variant + 1], 7000))
+fn c16_addr(slot: u8) -> SocketAddr {
+    SocketAddr::from(([10, 2, 0, slot + 1], 7000))
 }
 
-/// All states a snapshot can be in: each of ids 1..=3 absent / address 0 / address 1.
-fn snapshot_of(code: u32) -> Snapshot {
-    let mut s = Snapshot::new();
-    let mut c = code;
-    for id in 1..=3u8 {
-        match c % 3 {
-            1 => {
-                s.insert(id, c16_addr(id, 0));
-            },
-            2 => {
-                s.insert(id, c16_addr(id, 1));
-            },
-            _ => {},
+/// All membership states: each of ids 1..=3 is absent or sits on one of THREE shared
+/// addresses, no two ids on the same address at the same time (34 states). Sharing the
+/// pool lets a node be replaced by another id on the same address and two nodes swap
+/// addresses within one snapshot.
+fn all_snapshots() -> Vec<Snapshot> {
+    let mut out = Vec::new();
+    for a in 0..4u8 {
+        for b in 0..4u8 {
+            for c in 0..4u8 {
+                let picks = [a, b, c];
+                let used: Vec<u8> = picks.iter().copied().filter(|x| *x > 0).collect();
+                let mut dedup = used.clone();
+                dedup.sort();
+                dedup.dedup();
+                if dedup.len() != used.len() {
+                    continue;
+                }
+                let mut s = Snapshot::new();
+                for (i, slot) in picks.iter().enumerate() {
+                    if *slot > 0 {
+                        s.insert(i as u8 + 1, c16_addr(*slot));
+                    }
+                }
+                out.push(s);
+            }
         }
-        c /= 3;
     }
-    s
+    out
 }
+
+fn snapshot_of(code: u32) -> Snapshot {
+    thread_local! {
+        static ALL: Vec<Snapshot> = all_snapshots();
+    }
+    ALL.with(|a| a[code as usize % a.len()].clone())
+}
+
+const C16_STATES: u32 = 34;
 
 fn membership_of(s: &Snapshot) -> nv::NodeMembership {
     let mut m: nv::NodeMembership = BTreeMap::new();
-    m.insert(0, ClusterMember::new(0, c16_addr(0, 0), "dc".into()));
+    m.insert(0, ClusterMember::new(0, c16_addr(200), "dc".into()));
     for (id, a) in s {
         m.insert(*id, ClusterMember::new(*id, *a, "dc".into()));
     }
@@ -387,7 +407,7 @@ fn delta_json(d: &MembershipChange) -> Value {
 /// The subscriber always drains after the last snapshot (quiescence).
 async fn c16_case(seq: &[u32], sub_at: usize, read_mask: u32) -> CaseOut {
     let mut out = CaseOut::default();
-    let sel = nv::start_node_selector(c16_addr(0, 0), Cow::Borrowed("dc"), DCAwareSelector).await;
+    let sel = nv::start_node_selector(c16_addr(200), Cow::Borrowed("dc"), DCAwareSelector).await;
     let (tx, rx) = watch::channel(membership_of(&Snapshot::new()));
     let net = RpcNetwork::default();
     let changes = nv::spawn_membership_watcher(0, net.clone(), sel.clone(), ClusterStatistics::default(), rx);
@@ -517,7 +537,7 @@ pub fn c16(args: &Args) {
     let mut report = Report::new(
         args,
         "E5-membership",
-        "ids {1,2,3} (+ self), 2 addresses per id: every sequence of L<=3 (thorough: 4) snapshots out of the 27 possible, driven through the real watch_membership_changes task (hook H3), x every subscription point (before the first snapshot ... after the last) x every placement of the subscriber's reads between snapshots. Subscriber folds joined/left in order; at quiescence (after the last snapshot, stream drained) the folded set must equal the last snapshot minus self, and every departure must carry the address last reported. Synchronisation by awaiting the watcher's output, never by sleeping. Violations are classified: prompt subscriber from the start (no delta can have been lost) vs exactly what correct deltas over a latest-value channel would give (known design limitation) vs anything else. Non-trivial = a node departed in the sequence; distinct = (sequence, subscription point, read mask).",
+        "ids {1,2,3} (+ self) on a shared pool of 3 addresses (34 membership states: joins, leaves, address changes, rejoins, a node replaced by another id on the same address, two nodes swapping addresses): every sequence of L<=3 (thorough: 4) snapshots, driven through the real watch_membership_changes task (hook H3), x every subscription point (before the first snapshot ... after the last) x every placement of the subscriber's reads between snapshots. Subscriber folds joined/left in order; at quiescence (after the last snapshot, stream drained) the folded set must equal the last snapshot minus self, and every departure must carry the address last reported. Synchronisation by awaiting the watcher's output, never by sleeping. Violations are classified: prompt subscriber from the start (no delta can have been lost) vs exactly what correct deltas over a latest-value channel would give (known design limitation) vs anything else. Non-trivial = a node departed in the sequence; distinct = (sequence, subscription point, read mask).",
     );
     if let Some(path) = &args.replay {
         let r = read_replay(path);
@@ -534,7 +554,7 @@ pub fn c16(args: &Args) {
             out.push(cur.clone());
             return;
         }
-        for c in 0..27 {
+        for c in 0..C16_STATES {
             // consecutive identical snapshots are a no-op for the watch channel: skip
             if cur.last() == Some(&c) || (cur.is_empty() && c == 0) {
                 continue;
@@ -606,6 +626,14 @@ async fn c11_round(seed: u64, round: u64, tasks: usize, calls: usize, yields: bo
             for c in 0..calls {
                 if yields && rng.gen_bool(0.3) {
                     tokio::task::yield_now().await;
+                }
+                if rng.gen_bool(0.08) {
+                    // a caller that gives up: the request is queued (polled once) and the future dropped
+                    // before the clock actor's reply is taken
+                    let mut fut = Box::pin(clock.get_time());
+                    let _ = futures::poll!(fut.as_mut());
+                    drop(fut);
+                    continue;
                 }
                 if rng.gen_bool(0.25) {
                     // a remote stamp: mostly slightly ahead of what we have seen, sometimes far beyond the drift
@@ -692,7 +720,7 @@ pub fn c11(args: &Args) {
     let mut report = Report::new(
         args,
         "clock",
-        "T tasks x M calls on one real datacake_node::Clock (the actor + flume channel + oneshot replies), mixing get_time and register_ts(remote) (10% of remotes beyond the allowed drift), random yields; runtimes: current-thread and multi-thread with 2/4/16 workers. Checked on the recorded history: all returned stamps pairwise distinct and carrying the node id, per task strictly increasing, every get_time that started after a register_ts(r) had returned (global happens-before token) is > r unless r was beyond the drift. Non-trivial: every round has >= 2 tasks; distinct = distinct orderings of the first 32 results by task.",
+        "T tasks x M calls on one real datacake_node::Clock (the actor + flume channel + oneshot replies), mixing get_time, register_ts(remote) (10% of remotes beyond the allowed drift) and abandoned get_time requests (future polled once, then dropped), random yields; runtimes: current-thread and multi-thread with 2/4/16 workers. Checked on the recorded history: all returned stamps pairwise distinct and carrying the node id, per task strictly increasing, every get_time that started after a register_ts(r) had returned (global happens-before token) is > r unless r was beyond the drift. Non-trivial: every round has >= 2 tasks; distinct = distinct orderings of the first 32 results by task.",
     );
     let seed = args.seed;
     let rounds = args.pick(3_000, 60_000);
